@@ -686,6 +686,18 @@ def cond_atoms(test, pol):
             a, b = unparse(left), unparse(right)
             out.add(("%s in %s" % (a, b), pol if isinstance(op, ast.In) else not pol))
             out.add(("%s not in %s" % (a, b), (not pol) if isinstance(op, ast.In) else pol))
+            if isinstance(right, (ast.Tuple, ast.List, ast.Set)) and right.elts and not any(isinstance(e_, ast.Starred) for e_ in right.elts):
+                # membership in a literal collection is the disjunction of the equalities
+                member = pol if isinstance(op, ast.In) else not pol
+                eqs = ["%s == %s" % (a, unparse(e_)) for e_ in right.elts]
+                if member:
+                    out.add((" or ".join(eqs), True))
+                    if len(eqs) == 1:
+                        out.add((eqs[0], True))
+                else:
+                    for q in eqs:
+                        out.add((q, False))
+                    out.add((" or ".join(eqs), False))
         else:
             # normalised comparison text with flipped forms
             # all equivalent textual forms: negated operator, swapped operands
